@@ -1951,3 +1951,113 @@ Proof.
   destruct (inv_out _ _ _ Hinv1 _ _ _ Hin') as (i2 & t2 & Hi2 & Hs2). rewrite Hlog1 in Hi2. destruct Hi2 as [Hi2|[]].
   inversion Hi2; subst. congruence.
 Qed.
+
+(* ================================================================== *)
+(* 9. after the repair no write can hit read-only memory                *)
+(* ================================================================== *)
+
+Lemma mem_write_private_no_fault : forall m p pos data, mem_private p = true -> mem_write m p pos data <> RFault.
+Proof. intros m p pos data Hp. unfold mem_write. destruct data; [discriminate|]. destruct p; try discriminate. Qed.
+
+Lemma mem_overwrite_private_no_fault : forall m p off len start tail, mem_private p = true ->
+  mem_overwrite_n_truncate m p off len start tail <> RFault.
+Proof.
+  intros m p off len start tail Hp. unfold mem_overwrite_n_truncate. destruct (Nat.ltb len start); [discriminate|].
+  pose proof (mem_write_private_no_fault m p (off + start) (firstn (Nat.min (len - start) (length tail)) tail) Hp) as Hw.
+  destruct (mem_write m p (off + start) _); cbn; congruence.
+Qed.
+
+Lemma mem_clean_private_no_fault : forall m p off len, mem_private p = true -> mem_clean_utf8 m p off len <> RFault.
+Proof.
+  intros m p off len Hp. unfold mem_clean_utf8. destruct len; [discriminate|]. apply mem_overwrite_private_no_fault. exact Hp.
+Qed.
+
+Lemma mem_parse_no_fault : forall pa ls m r, mem_parse pa ls m r <> RFault.
+Proof.
+  intros pa ls m r. unfold mem_parse. destruct (mem_parse_head ls m r) as [rb|s|r3 off len]; try discriminate.
+  unfold mem_parse_msg.
+  destruct (p_max_rec pa <=? N.of_nat (length (m_own m)))%N.
+  - pose proof (mem_clean_private_no_fault m EOwn off (if (p_max_msg pa <? N.of_nat len)%N then N.to_nat (p_max_msg pa) else len) eq_refl) as Hc.
+    destruct (mem_clean_utf8 m EOwn off _); cbn; congruence.
+  - cbn. discriminate.
+Qed.
+
+Lemma mem_run_stx_copy_no_fault : forall m r t, mem_run_stx TruncCopy m r t <> RFault.
+Proof.
+  intros m r t. destruct t; cbn [mem_run_stx]; try discriminate.
+  - destruct (concat _); [discriminate|]. destruct (mem_alloc m _). discriminate.
+  - destruct (Nat.eqb _ 0); discriminate.
+  - destruct (mem_get_field r key) as [|p off len]; [discriminate|].
+    destruct (Nat.ltb _ len); [|discriminate].
+    destruct (mem_alloc m _) as [m1 v] eqn:Ea.
+    assert (Hv : match v with EStr q _ _ => mem_private q = true | EEmpty => True end) by (unfold mem_alloc in Ea; inversion Ea; subst; reflexivity).
+    destruct v as [|q qoff qlen]; [discriminate|].
+    pose proof (mem_clean_private_no_fault m1 q qoff maxlen Hv) as Hc.
+    destruct (mem_clean_utf8 m1 q qoff maxlen) as [[m2 tl]| |s]; cbn; congruence.
+  - destruct (lr_unesc r); [discriminate|]. destruct (mem_index_byte 92 _); [|discriminate]. destruct (mem_alloc m _). discriminate.
+Qed.
+
+Lemma mem_run_stxs_copy_no_fault : forall ts m r, mem_run_stxs TruncCopy m r ts <> RFault.
+Proof.
+  induction ts as [|t ts IH]; intros m r; cbn; [discriminate|].
+  pose proof (mem_run_stx_copy_no_fault m r t) as H.
+  destruct (mem_run_stx TruncCopy m r t) as [[m1 r1]| |s]; cbn; [apply IH|congruence|discriminate].
+Qed.
+
+Lemma mem_run_txs_copy_no_fault : forall ts m r, mem_run_txs TruncCopy m r ts <> RFault.
+Proof.
+  induction ts as [|t ts IH]; intros m r; cbn; [discriminate|].
+  destruct t as [t|conds body|conds].
+  - pose proof (mem_run_stx_copy_no_fault m r t) as H.
+    destruct (mem_run_stx TruncCopy m r t) as [[m1 r1]| |s]; cbn; [apply IH|congruence|discriminate].
+  - destruct (forallb _ conds); [|apply IH].
+    pose proof (mem_run_stxs_copy_no_fault body m r) as H.
+    destruct (mem_run_stxs TruncCopy m r body) as [[m1 r1]| |s]; cbn; [apply IH|congruence|discriminate].
+  - destruct (forallb _ conds); [discriminate|apply IH].
+Qed.
+
+Lemma mem_release_no_fault : forall g h, mem_release g h <> StepStop Fault.
+Proof.
+  intros g h. unfold mem_release. destruct (nth_error (g_slots g) h); [|discriminate].
+  destruct (_ <? 0)%Z; [discriminate|]. destruct (0 <? _)%Z; [discriminate|].
+  destruct (r_backbuf _); [|discriminate]. destruct (mem_put_class _); discriminate.
+Qed.
+
+Lemma mem_release_final_no_fault : forall g h rid st, mem_release_final g h rid st <> StepStop Fault.
+Proof.
+  intros g h rid st. unfold mem_release_final. pose proof (mem_release_no_fault g h) as H.
+  destruct (mem_release g h); [discriminate|congruence].
+Qed.
+
+Lemma mem_step_copy_no_fault : forall c g e, c_trunc_mode c = TruncCopy -> mem_step c g e <> StepStop Fault.
+Proof.
+  intros c g e Hmode. destruct e as [cs cb input ts|h|h]; cbn [mem_step]; rewrite ?Hmode.
+  - destruct (mem_new_record c g cs cb input) as [[[[[[h r] bufs] cpy] slots]|]|s] eqn:Enr; [|discriminate|].
+    2:{ apply mem_new_record_inr in Enr. subst s. discriminate. }
+    destruct (mem_local_of _ _ _) as [[m lr]|]; [|discriminate].
+    pose proof (mem_parse_no_fault (c_params c) (c_level_sites c) m lr) as Hp.
+    destruct (mem_parse (c_params c) (c_level_sites c) m lr) as [[[[m1 lr1] pst] ov]| |s]; [|congruence|discriminate].
+    destruct pst; [|apply mem_release_final_no_fault].
+    pose proof (mem_run_txs_copy_no_fault (c_extract c) m1 lr1) as Ht.
+    destruct (mem_run_txs TruncCopy m1 lr1 (c_extract c)) as [[[m2 lr2] b]| |s]; [|congruence|discriminate].
+    destruct b; [discriminate|apply mem_release_final_no_fault].
+  - destruct (nth_error (g_slots g) h) as [[r st]|]; [|discriminate].
+    destruct st as [|l|]; try discriminate. destruct (l_phase l); [|discriminate].
+    destruct (mem_local_of g r l) as [[m lr]|]; [|discriminate].
+    pose proof (mem_run_txs_copy_no_fault (c_transforms c) m lr) as Ht.
+    destruct (mem_run_txs TruncCopy m lr (c_transforms c)) as [[[m2 lr2] b]| |s]; [|congruence|discriminate].
+    destruct b; [discriminate|apply mem_release_final_no_fault].
+  - destruct (nth_error (g_slots g) h) as [[r st]|]; [|discriminate].
+    destruct st as [|l|]; try discriminate. destruct (l_phase l); [discriminate|].
+    destruct (nth_error (c_outputs c) done) as [oc|]; [|discriminate].
+    destruct (mem_local_of g r l) as [[m lr]|]; [|discriminate].
+    destruct (mem_serialize _ _ oc m lr) as [d lr1]. apply mem_release_no_fault.
+Qed.
+
+(* whatever the configuration and the records: the repaired code never writes to read-only memory *)
+Lemma mem_run_copy_no_fault : forall c evs g, c_trunc_mode c = TruncCopy -> mem_run c g evs <> StepStop Fault.
+Proof.
+  intros c evs. induction evs as [|e evs IH]; intros g Hmode; cbn; [discriminate|].
+  pose proof (mem_step_copy_no_fault c g e Hmode) as H.
+  destruct (mem_step c g e) as [g'|s]; [apply IH; exact Hmode|congruence].
+Qed.
